@@ -346,6 +346,32 @@ theorem pstore_grant_is_min (t t' : KState ℚ σ) (h : AUnit t t') (r : ResId) 
 example : (ExStore.s1.ev 4).kind = .put 0 ∧ ExStore.s1.triggered 4 = false ∧ ExStore.s4.triggered 4 = true ∧
     (ExStore.s1.res 0).putQ = [4] := by decide +kernel
 
+/-! ### b-conserve, part 3: a Store is first-in first-out across the whole run -/
+
+/-- **Store hands items out in insertion order, across the whole run**: as lists, the initial items followed by the
+items of the granted puts (in creation order of the puts — which is the order in which a Store grants them,
+`fcfs_put_global`) equal the items handed to the getters (in creation order of the gets — the order in which they are
+granted, `fcfs_get_global`) followed by the items still held. -/
+theorem store_fifo_global (body : σ → Resume → Burst ℚ σ) (fuel : Nat) (s0 s : KState ℚ σ)
+    (hW : WF s0) (hS : QSorted s0) (h0 : ∀ e, isReq s0 e = false) (hr : SafeReach body fuel s0 s)
+    (r : ResId) (hk : (s.res r).kind = .store) :
+    (s0.res r).items ++ putItems s r = gotItems s r ++ (s.res r).items :=
+  reach_fifo body fuel s0 s hW hS h0 hr r hk
+
+/-- **The k-th granted get of a Store receives the k-th accepted item.** -/
+theorem store_kth_get_receives_kth_item (body : σ → Resume → Burst ℚ σ) (fuel : Nat) (s0 s : KState ℚ σ)
+    (hW : WF s0) (hS : QSorted s0) (h0 : ∀ e, isReq s0 e = false) (hr : SafeReach body fuel s0 s)
+    (r : ResId) (hk : (s.res r).kind = .store) (k : Nat) (hlt : k < (gotItems s r).length) :
+    (gotItems s r)[k]? = ((s0.res r).items ++ putItems s r)[k]? := by
+  rw [store_fifo_global body fuel s0 s hW hS h0 hr r hk, List.getElem?_append_left hlt]
+
+/-! non-vacuity: the Store run above: accepted `[7, 5, 9]` = handed out `[7]` ++ held `[5, 9]` -/
+example : QSorted ExStore.s0 := ExStore.sorted0
+example : (ExStore.s4.res 0).kind = .store :=
+  ((reach_base _ _ _ _ ExStore.wf0 ExStore.reach4).1.resKind 0).trans rfl
+example : (ExStore.s0.res 0).items ++ putItems ExStore.s4 0 = [7, 5, 9] ∧
+    gotItems ExStore.s4 0 ++ (ExStore.s4.res 0).items = [7, 5, 9] := by decide +kernel
+
 /-! ## ===== b-conserve — END ===== -/
 
 end C07
